@@ -78,10 +78,17 @@ def groups(out):
     return res
 
 
-def canon(out, ops):
-    """A disconnect NACKs the in-flight messages in send-queue (= timer) order and the first one
-    twice; neither is part of the property (DESIGN.md section 7, other observations): for the
-    comparison the NACKs of messages that were on the wire become a sorted set."""
+def canon(out, ops, strict=False):
+    """What the property can observe of an event, in canonical form.
+    - inside one library call the order between datagrams and nack callbacks is not observable
+      by the property (give-up: next message first, then the NACK): result marker, datagrams in
+      order, callbacks in order;
+    - nack callbacks that matter to the property: NACK TOO_MANY_RETRIES (a message stops being in
+      flight) and, at a disconnect, the NACKs of messages that were never on the wire (the held
+      CONs), in order.  Everything else - RST callbacks, which in-flight messages a disconnect
+      reports, in which order and how often, the "could not determine the request" fallback -
+      belongs to C06/C07 and changes with their repairs (/repo 62d0bc3 did): it is compared only
+      with strict=True, whose differences are counted in the evidence and never raised."""
     gs = groups(out)
     if gs is None or len(gs) != len(ops):
         return out
@@ -98,18 +105,17 @@ def canon(out, ops):
             keep, infl = [], set()
             for it in items:
                 if it[0] == "N" and it.endswith(".1") and (sid, it.split(".")[1]) in seen:
-                    # ICMP: only "the first node in timer order" is reported - which one is a
-                    # matter of timing (C06), not of this property
                     infl.add("N4.*.1" if it.startswith("N4.") else it)
+                elif it[0] == "N" and it.endswith(".0") and not strict:
+                    pass
                 else:
                     keep.append(it)
-            items = keep + sorted(infl)
+            items = keep + (sorted(infl) if strict else [])
+        elif not strict:
+            items = [x for x in items if x[0] != "N" or x.startswith("N0.")]
         for it in items:
             if it[0] in "TE" and it[1] in "cn":
                 seen[(sid, it[2:].split(".")[0])] = 1
-        # inside one library call the order between datagrams and nack callbacks is not
-        # observable by the property (e.g. give-up: next message first, then the NACK):
-        # result marker, datagrams in order, callbacks in order
         items = [x for x in items if x[0] in "AX"] + [x for x in items if x[0] in "TWE"] + \
                 [x for x in items if x[0] not in "AXTWE"]
         res.append(",".join(items))
@@ -339,6 +345,7 @@ def main(run):
         return "ok", ""
 
     nbad = 0
+    nstrict = 0
     reported = set()
     for i, (prefix, ops, meta) in enumerate(cases):
         ln = lines[i]
@@ -371,6 +378,8 @@ def main(run):
             kind, what = "tie", ("implementation differs from the proved model (natural-time history "
                                  "replayed with the implementation's own timer firings)")
         if not kind:
+            if not nat and canon(model_out.get(i, ""), ops, strict=True) != canon(co, ops, strict=True):
+                nstrict += 1
             continue
         nbad += 1
         if nbad > 4:
@@ -461,6 +470,7 @@ def main(run):
                               % (lines[i], oa[sl.index(i)], oc[i]), tag="asan%d" % nbad)
     run.cov["disagreements"] = nbad
     run.cov["corpus_cases"] = len(corpus)
+    run.cov["strict_differences_not_raised"] = nstrict   # callbacks outside the property (see canon)
     run.cov["checker_runs_on_impl_traces"] = len(mon_in)
 
 
